@@ -602,7 +602,7 @@ Section P.
       assert (s_buf s = []) as Hb.
       { unfold s. rewrite final_app. simpl. unfold finalize.
         destruct (finalize_files _ _ _). reflexivity. }
-      split; [|exact Hb]. rewrite Hb in Hmb. inversion Hmb; subst. exact Hown.
+      split; [|exact Hb]. rewrite Hb in Hmb. rewrite Hown. inversion Hmb. reflexivity.
     Qed.
 
     (** the foreign files are those of the last interference (or the initial ones) *)
